@@ -145,7 +145,10 @@ fn replay_file(path: &str) -> i32 {
                 None
             }
             ("C13", _) => {
-                let s = String::from_utf8(mc::util::unhex(r["input_utf8_hex"].as_str()?)).ok()?;
+                let s = match r["repeat_char"].as_str() {
+                    Some(c) => c.repeat(r["times"].as_u64()? as usize),
+                    None => String::from_utf8(mc::util::unhex(r["input_utf8_hex"].as_str()?)).ok()?,
+                };
                 c13::check_full(&report, &s);
                 None
             }
